@@ -150,6 +150,7 @@ type rEv struct {
 	AtUs    int64  `json:"at_us"`
 	UnixS   int64  `json:"unix_s"`
 	SrvS    int64  `json:"srv_s"`
+	FracNs  int64  `json:"frac_ns,omitempty"` // sub-second part of the wall-clock reading
 	Gid     int64  `json:"gid"`
 	Res     int    `json:"res,omitempty"`
 	ResName string `json:"res_name,omitempty"`
@@ -202,7 +203,7 @@ func rGid() int64 {
 func (r *rRun) stamp(kind string, step int) *rEv {
 	srv := r.db.currentTime // before the wall-clock reading: srv <= unix second of the stamp
 	now := time.Now()
-	ev := &rEv{Kind: kind, Step: step, SrvS: srv, UnixS: now.Unix(), Gid: rGid(), at: now.Sub(r.start)}
+	ev := &rEv{Kind: kind, Step: step, SrvS: srv, UnixS: now.Unix(), FracNs: int64(now.Nanosecond()), Gid: rGid(), at: now.Sub(r.start)}
 	ev.AtUs = int64(ev.at / time.Microsecond)
 	return ev
 }
